@@ -486,8 +486,15 @@ namespace BitSerializer::Convert::Detail
 		{
 			throw std::out_of_range("Target duration is not enough");
 		}
-		const int64_t days = era * 146097ll + (static_cast<int>(doe) - 719468);
-		const auto time = static_cast<long long>(utc.Hour) * 3600 + static_cast<long long>(utc.Min) * 60 + utc.Sec;
+		int64_t days = era * 146097ll + (static_cast<int>(doe) - 719468);
+		auto time = static_cast<long long>(utc.Hour) * 3600 + static_cast<long long>(utc.Min) * 60 + utc.Sec;
+		// Before the epoch count the time back from the next midnight: the midnight of the first
+		// representable day may be out of range although the instants of that day are not
+		if (days < 0)
+		{
+			++days;
+			time -= 86400;
+		}
 
 		std::chrono::time_point<TClock, TDuration> tp;
 		SafeAddDuration(tp, std::chrono::seconds(time));
